@@ -204,19 +204,33 @@ def cascade_names(devs, stab, hotfix):
     names = ['development/' + d for d in devs]
     if stab:
         names.append('stabilization/' + stab)
-    hf = hotfix_name(devs, hotfix)
-    if hf:
+    for hf in hotfix_names(devs, hotfix):
         names.append('hotfix/' + hf)
     return names
 
 
-def hotfix_name(devs, hotfix):
+def hotfix_names(devs, hotfix):
+    """hotfix: None | 'old' | 'same' | list of x.y.z  ->  versions of the hotfix branches of the cascade."""
+    if hotfix is None:
+        return []
     if hotfix == 'old':
-        return '4.2.17'
+        return ['4.2.17']
     if hotfix == 'same':
         last = [d for d in devs if '.' in d][-1]
-        return last + '.0'
-    return None
+        return [last + '.0']
+    if isinstance(hotfix, (list, tuple)) and all(isinstance(h, str) for h in hotfix):
+        return list(hotfix)
+    raise ValueError('bad hotfix description %r' % (hotfix,))
+
+
+def two_hotfix_options(devs):
+    """Two hotfix branches at once: two old lines, one line with two micro versions, an old line and the
+    newest minor, and (when both exist) the lines of two development branches."""
+    last = [d for d in devs if '.' in d][-1]
+    opts = [['4.1.5', '4.2.17'], ['4.2.16', '4.2.17'], ['4.2.17', last + '.0']]
+    if '4.3' in devs and '5.1' in devs:
+        opts.append(['4.3.0', '5.1.0'])
+    return opts
 
 
 def vt_str(vt):
@@ -248,10 +262,9 @@ def check_merge_paths(ctx):
     """get_merge_paths of the model against the real BranchCascade, for every cascade of the domain, built
     without destination (handle_merge_queues) and with the hotfix branch as destination (pull request jobs)."""
     cases = []
-    for devs, stab, hotfix in cascades():
+    for devs, stab, hotfix in list(cascades()) + list(cascades(True)):
         names = cascade_names(devs, stab, hotfix)
-        hf = hotfix_name(devs, hotfix)
-        for dst in [None] + (['hotfix/' + hf] if hf else []):
+        for dst in [None] + ['hotfix/' + hf for hf in hotfix_names(devs, hotfix)]:
             paths, casc = real_merge_paths(names, dst, want_cascade=True)
             cases.append((names, dst, paths_str(paths), casc))
     answers = ctx.model.batch(['paths ' + c[3] for c in cases])
@@ -262,15 +275,15 @@ def check_merge_paths(ctx):
             ctx.mismatch({'branches': names, 'destination': dst, 'cascade': casc}, impl, model, 'get_merge_paths')
 
 
-def real_targets(names, hotfix, dst):
+def real_targets(names, hotfixes, dst):
     """dst_branches of the real cascade for a pull request on dst -> [(queue version string, dst name)]."""
     from bert_e.workflow.gitwaterflow import branches as B
     c = B.BranchCascade()
     d = B.branch_factory(None, dst)
     for n in sorted(names):
         c.add_branch(B.branch_factory(None, n), d)
-    if hotfix:
-        c.update_versions(hotfix)
+    for tag in hotfixes:                    # a hotfix branch exists because x.y.z was released
+        c.update_versions(tag)
     c.finalize(d)
     out = []
     single_hf = len(c.dst_branches) == 1 and c.dst_branches[0].hfrev > 0   # get_queue_integration_branch
@@ -290,7 +303,7 @@ class Group:
         from bert_e.workflow.gitwaterflow import branches as B
         self.key = {'devs': list(devs), 'stab': stab, 'hotfix': hotfix, 'dests': list(dests)}
         names = cascade_names(devs, stab, hotfix)
-        hf = hotfix_name(devs, hotfix)
+        hfs = hotfix_names(devs, hotfix)
         self.paths = real_merge_paths(names)
         w = self.world = World()
         prev = None
@@ -299,15 +312,15 @@ class Group:
             prev = n
         if stab:
             w.commit('stabilization/' + stab, 'd:s')
-        if hf:
-            w.commit('hotfix/' + hf, 'd:h')
+        for hf in hfs:
+            w.commit('hotfix/' + hf, 'd:h:' + hf)
         self.entries = []            # (pr, queue version string, branch name), handle = index
         self.order = []              # non-hotfix prs in order of entry
         qtip = {}                    # queue version -> name of the branch holding its current tip
         first_seen = []
         for i, dst in enumerate(dests):
             pr = PR_IDS[i]
-            targets = real_targets(names, hf, dst)
+            targets = real_targets(names, hfs, dst)
             if not dst.startswith('hotfix/'):
                 self.order.append(pr)
             prev = None
@@ -392,11 +405,11 @@ def matrix_statuses(m, E):
 
 # ------------------------------------------------------------------------------------ domain
 
-def cascades():
+def cascades(two_hotfix=False):
     for devs in DEV_SETS:
         stabs = [None] + [STAB_OF[d] for d in devs if d in STAB_OF]
         for stab in stabs:
-            for hotfix in (None, 'old', 'same'):
+            for hotfix in (two_hotfix_options(devs) if two_hotfix else (None, 'old', 'same')):
                 yield devs, stab, hotfix
 
 
@@ -404,8 +417,7 @@ def destinations(devs, stab, hotfix):
     d = ['development/' + x for x in devs]
     if stab:
         d.append('stabilization/' + stab)
-    hf = hotfix_name(devs, hotfix)
-    if hf:
+    for hf in hotfix_names(devs, hotfix):
         d.append('hotfix/' + hf)
     return d
 
@@ -420,8 +432,8 @@ def n_entries(devs, stab, dst):
     return len(devs) - devs.index(dst.split('/')[1])
 
 
-def group_keys(nprs):
-    for devs, stab, hotfix in cascades():
+def group_keys(nprs, two_hotfix=False):
+    for devs, stab, hotfix in cascades(two_hotfix):
         ds = destinations(devs, stab, hotfix)
         for dests in itertools.product(ds, repeat=nprs):
             e = sum(n_entries(devs, stab, d) for d in dests)
@@ -487,6 +499,7 @@ def _run_chunk(args):
         res['groups'] += 1
         res['validated'] += bool(g.validated)
         count('prs=%d' % len(g.key['dests']))
+        count('nonempty_hotfix_queues=%d' % len({d for d in g.key['dests'] if d.startswith('hotfix/')}))
         count('entries=%d' % g.E)
         count('paths=%d' % len(g.paths))
         ans = answers[ai]
@@ -504,7 +517,8 @@ def _run_chunk(args):
             res['mismatch'].append((g.key, g.queued(), queued, 'queued_prs'))
             res['n_mismatch'] += 1
         hf_prs = [PR_IDS[i] for i, d in enumerate(g.key['dests']) if d.startswith('hotfix/')]
-        if g.queued() != ','.join(map(str, hf_prs + g.order)):
+        q_impl = [int(x) for x in g.queued().split(',') if x]
+        if set(q_impl) != set(hf_prs + g.order) or [x for x in q_impl if x in g.order] != g.order:
             count('queued_prs_not_the_whole_queue')       # outside the statement of C05: reported in the notes
             if len(res['samples']) < 3:
                 res['samples'].append({'queued_prs_incomplete': g.key, 'queued_prs': g.queued(),
@@ -620,29 +634,46 @@ def run(ctx):
         ctx.count('corpus')
     patch_git()
     check_merge_paths(ctx)
-    # the enumeration: 0..3 pull requests completely, then 4 pull requests
-    full = []
+    # the enumeration: 0..3 pull requests completely, then 4 pull requests; cascades with at most one hotfix
+    # branch and cascades with two hotfix branches (two hotfix queues that must be independent)
+    full, two_hf = [], []
     for n in (0, 1, 2, 3):
         full += list(group_keys(n))
-    all4 = sorted(group_keys(4), key=lambda ke: key_hash(ctx.seed, ke[0]))      # seed-dependent order
+        two_hf += list(group_keys(n, True))
+    total2 = sum(1 << e for _, e in two_hf)
+    all4 = sorted(list(group_keys(4)) + list(group_keys(4, True)),
+                  key=lambda ke: key_hash(ctx.seed, ke[0]))                      # seed-dependent order
     total4 = sum(1 << e for _, e in all4)
     if ctx.quick:
+        every2 = int(total2 / 4.0e4) + 1
+        two_hf_run = [(k, e) for k, e in two_hf if key_hash(ctx.seed, k) % every2 == 0]
+        plan2 = 'the 1/%d stratum of the groups selected by md5(seed, group)' % every2
         every = int(total4 / 6.0e4) + 1
         strat = [(k, e) for k, e in all4 if key_hash(ctx.seed, k) % every == 0]
         deadline = None
         plan4 = 'the 1/%d stratum of the (cascade, destinations) groups selected by md5(seed, group)' % every
     else:
+        two_hf_run = two_hf
+        plan2 = 'all groups'
         strat = all4
         deadline = t_start + float(os.environ.get('VERIF_C05_BUDGET_S', '1320'))
         plan4 = ('all groups, taken in the order of md5(seed, group), until done or until the time budget of '
                  '%.0f s is used' % (deadline - t_start))
-    ctx.rule = ('cascades: development sets %s x one optional stabilization on any of them x hotfix {none, older '
-                'than every development branch, on the newest minor}; queues of 0..3 pull requests: every '
-                'destination per pull request x every SUCCESSFUL/FAILED matrix over the queue commits, all run; '
-                '4 pull requests: the same over %s; per group two four-valued matrices (status_abstraction on the '
+    ctx.rule = ('cascades: development sets %s x one optional stabilization on any of them x hotfix branches '
+                '{none, one older than every development branch, one on the newest minor} [A], or two hotfix '
+                'branches at once {two old lines, one line with two micro versions, an old line + the newest minor, '
+                'the lines of two development branches} [B]; queues of 0..3 pull requests: every destination per '
+                'pull request (so 0..3 pull requests per hotfix queue, mixed with development/stabilization ones) x '
+                'every SUCCESSFUL/FAILED matrix over the queue commits: [A] all run, [B] %s; 4 pull requests: the '
+                'same over [A]+[B], %s; per group two four-valued matrices (status_abstraction on the '
                 'implementation) and two force-merge evaluations; non-trivial = distinct (group, matrix) with at '
                 'least one queue commit that is not SUCCESSFUL (the prefix decision is exercised)'
-                % (DEV_SETS, plan4))
+                % (DEV_SETS, plan2, plan4))
+    full = full + two_hf_run
+    ctx.count('groups_two_hotfix_up_to_3_prs_total', len(two_hf))
+    ctx.count('groups_two_hotfix_up_to_3_prs_run', len(two_hf_run))
+    ctx.extra['matrices_two_hotfix_up_to_3_prs_total'] = total2
+    ctx.extra['matrices_two_hotfix_up_to_3_prs_run'] = sum(1 << e for _, e in two_hf_run)
     nproc = min(16, os.cpu_count() or 1)
     patch_git()
     done4 = {'groups': 0, 'matrices': 0}
@@ -680,8 +711,9 @@ def run(ctx):
                          % ctx.hist['queued_prs_not_the_whole_queue'])
     if ctx.hist.get('validate_accepted', 0) != ctx.hist.get('groups', 0):
         ctx.notes.append('generator bug: the real validate() rejected some generated worlds')
-    ctx.exhaustive = (done4['groups'] == len(all4))
-    ctx.extra['exhaustive_up_to_3_prs'] = True
+    ctx.exhaustive = (done4['groups'] == len(all4)) and len(two_hf_run) == len(two_hf)
+    ctx.extra['exhaustive_up_to_3_prs'] = len(two_hf_run) == len(two_hf)
+    ctx.extra['exhaustive_up_to_3_prs_at_most_one_hotfix'] = True
     ctx.extra['exhaustive_4_prs'] = done4['groups'] == len(all4)
 
 
